@@ -57,13 +57,14 @@ Proof. exact chk_C04_model. Qed.
 Print Assumptions C04_predicate_holds_on_every_model_trace.
 
 (* ---------- the RFC 6062 (TCP relay) part ---------- *)
-From Turn Require Import TcpRelay C16Check C04TcpCheck TcpIso.
+From Turn Require Import TcpRelay C16Check C04TcpCheck TcpIso TcpTrace.
 (* for every history of Connect / inbound peer connection / ConnectionBind / data / close / tick events over any number of
    TCP allocations: on the trace of Model/TcpRelay.v every Connect answer goes to the 5-tuple that sent the request and
    nothing else produces one, a ConnectionAttempt indication goes to the owner of the relayed address the peer connected
    to, an ending allocation closes peer connections of its own relayed address only, and 446 is justified only by a
-   connection this very allocation has had with that peer - another 5-tuple's connections never matter. The same
-   predicate is evaluated on the real server's traces by TestVerif_C04TCP. *)
-Theorem C04_tcp_isolation_on_every_model_trace : forall h, C04TcpCheck.run (tmodel_case h) = (true, true).
+   connection this very allocation has had with that peer - another 5-tuple's connections never matter - and a
+   ConnectionBind succeeds only for the user of the allocation the connection was announced to (connection ids fresh,
+   as for C16). The same predicate is evaluated on the real server's traces by TestVerif_C04TCP. *)
+Theorem C04_tcp_isolation_on_every_model_trace : forall h, cids_fresh [] h -> C04TcpCheck.run (tmodel_case h) = (true, true).
 Proof. exact tcp_isolation_on_model. Qed.
 Print Assumptions C04_tcp_isolation_on_every_model_trace.
